@@ -54,7 +54,20 @@ inline int64_t gen_int(Src &s) {
 }
 
 inline uint64_t gen_double_bits(Src &s) {
-    switch (s.u8() % 6) {
+    uint8_t dsel = s.u8();
+    if (dsel >= 0xe8) {
+        // the rounding boundaries of "%f" (6 decimals): (n + 0.5) * 1e-6 and 10^k - 5e-7, each 0..2 ulps up or down, either sign
+        double v;
+        uint8_t a = s.u8();
+        if (a & 1) { int k = (a >> 1) % 16; v = 1.0; for (int i = 0; i < k; i++) v *= 10.0; v -= 5e-7; }
+        else { v = ((double)(s.u32() % 2000000000u) + 0.5) * 1e-6; if (a & 2) v *= 1000.0; }
+        uint64_t u;
+        memcpy(&u, &v, 8);
+        u += (uint64_t)(int64_t)((int)(s.u8() % 5) - 2);
+        if (a & 0x80) u |= 0x8000000000000000ULL;
+        return u;
+    }
+    switch (dsel % 6) {
     case 0: return s.u64();
     case 1: {
         static const uint64_t sp[] = {
@@ -287,6 +300,7 @@ inline Value gen_chain(Src &s, unsigned levels, bool array_root, unsigned style)
         else if (style % 4 == 0) k = kinds[0];
         else if (style % 4 == 1) k = kinds[i - 1] == ref::K_ARR ? ref::K_OBJ : ref::K_ARR;
         else if (style % 4 == 2) k = s.flag() ? ref::K_ARR : ref::K_OBJ;
+        else if (style % 4 == 3 && levels > 300) k = (i % 256 == 255) ? ref::K_OBJ : ref::K_ARR;  // blocks of 255 arrays, one object between them
         else k = (i % 7 == 3) ? ref::K_OBJ : ref::K_ARR;
         kinds.push_back(k);
     }
@@ -303,12 +317,20 @@ inline Value gen_chain(Src &s, unsigned levels, bool array_root, unsigned style)
         leaf = gen_tree(s, g, s.flag());
     }
     Value cur = leaf;
+    uint8_t sib = (style >= 4) ? s.u8() : 0;  // which levels get a trailing sibling after the nested child (bit pattern over level % 8)
     for (unsigned i = levels; i-- > 0;) {
         Value c;
         c.k = kinds[i];
         if (c.k == ref::K_OBJ) { cur.has_name = true; cur.name = Bytes{'a'}; }
         else { cur.has_name = false; cur.name.clear(); }
         c.c.push_back(std::move(cur));
+        if (sib & (1u << (i % 8))) {
+            Value t;
+            t.k = ref::K_INT;
+            t.i = 7;
+            if (c.k == ref::K_OBJ) { t.has_name = true; t.name = Bytes{'b'}; }
+            c.c.push_back(std::move(t));
+        }
         cur = std::move(c);
     }
     return cur;
